@@ -70,6 +70,7 @@ def input_classes(t):
     return dict(
         nullable=any(isinstance(x, (pd.Int64Dtype, pd.Float64Dtype, pd.BooleanDtype)) for x in dts),
         cols_sorted=cols == sorted(cols),
+        has_nonnumeric=any(str(x) in ("str", "object", "string") or str(x).startswith("datetime") for x in dts),
         has_na=bool(t.isna().to_numpy().any()) if len(t) else False,
     )
 
@@ -121,6 +122,18 @@ def compare_value_counts(got, want, r, sig):
         ensure(bool(np.all(v[:-1] >= v[1:] - 1e-12)), f"value_counts(sort=True) is not non-increasing: {list(got.values)}", "not-sorted", **sig)
 
 
+def int_prod_overflows(t):
+    cols = [t[c] for c in t.columns] if isinstance(t, pd.DataFrame) else [t]
+    for s_ in cols:
+        if str(s_.dtype).lower().startswith(("int", "uint")):
+            p = 1
+            for v in s_.dropna().tolist():
+                p *= int(v)
+            if abs(p) >= 2**62:
+                return True
+    return False
+
+
 def canon_missing(x):
     if isinstance(x, pd.Series) and x.dtype == object:
         return x.where(x.notna(), None)
@@ -149,6 +162,8 @@ def check(spec):
         zero_rows=len(case.pdf) == 0,
         pre="+".join(o["op"] for o in pre),
     )
+    maybe_empty = case.has_empty or len(case.pdf) == 0 or any(o["op"] == "filter" for o in pre)
+    sig["maybe_empty"] = maybe_empty
     with warnings.catch_warnings(), np.errstate(all="ignore"):
         warnings.simplefilter("ignore")
         status, want = reference(lambda: apply_red(D.run_pipeline(case.base, pre, envp), r))
@@ -158,6 +173,13 @@ def check(spec):
         sig["fam"] = FAMILY.get(r["name"], r["name"])
         sig["min_periods_gt2"] = kw.get("min_periods", 2) > 2
         sig["skipna_false"] = kw.get("skipna") is False
+        tgt = target_of(D.run_pipeline(case.base, pre, envp), r)
+        if sig["fam"] == "moment":
+            cnt = tgt.count()
+            sig["ddof_ge_n"] = bool(kw.get("ddof", 1) >= (int(cnt.min()) if isinstance(cnt, pd.Series) and len(cnt) else int(cnt) if not isinstance(cnt, pd.Series) else 0))
+        if r["name"] == "prod" and int_prod_overflows(tgt):
+            # int64 products that wrap around: pandas' own value is an artefact of evaluation order/dtype
+            raise Reject("integer product overflows int64")
         try:
             with impl("reduction", **sig):
                 lazy = apply_red(D.run_pipeline(case.ddf, pre, envd), r)
@@ -171,7 +193,6 @@ def check(spec):
                 count("dask-notimplemented")
                 raise Reject("dask refuses: NotImplementedError") from None
             raise
-    maybe_empty = case.has_empty or len(case.pdf) == 0 or any(o["op"] == "filter" for o in pre)
     what = f"{r['name']}({kw})"
     if r["name"] == "value_counts":
         compare_value_counts(got, want, r, sig)
@@ -385,7 +406,7 @@ def random_case(draw):
     pre = []
     schema = D.schema_of(fs)
     if draw(st.integers(0, 2)) == 0:
-        ctx = {"schema0": schema, "allow_other": False, "allow_root": False, "nonzero_div": True, "pos": 0}
+        ctx = {"schema0": schema, "allow_other": False, "allow_root": False, "nonzero_div": True, "pos": 0, "no_float32": True}
         for _ in range(4):
             op, sch, is_series = D.gen_frame_op(draw, schema, ctx, last=False)
             if op["op"] in ("filter", "project", "assign") and sch:
